@@ -364,3 +364,69 @@ func H_C20_force_readonly() {
 	}
 	verifnd.Assert(verifnd.ParkedGoroutines() == 0, "goroutines.none-left-blocked")
 }
+
+// H_C20_registry_refresh — "hosts added or removed at any moment": after a successful refresh the
+// host registry of the daemon equals what the coordination service lists, whatever it held before
+// (a host may have left, joined, or moved between the HA and the cascade group, the local host
+// included). A stale entry is corrupted state that every per-host loop then acts on.
+func H_C20_registry_refresh() {
+	hosts := []string{"h1", "h2", "h3"}[:verifnd.Param("hosts", 3)]
+	const (
+		gAbsent = iota
+		gHA
+		gCascade
+	)
+	before := map[string]int{}
+	var ha []string
+	casc := map[string]string{}
+	for _, h := range hosts {
+		before[h] = verifnd.Choose("before."+h, 3)
+		switch before[h] {
+		case gHA:
+			ha = append(ha, h)
+		case gCascade:
+			casc[h] = "h1"
+		}
+	}
+	w := verifNewWorld(verifConfig("h2"), ha, casc) // h2 is the local host; the world refreshes once
+	cl := w.app.cluster
+	after := map[string]int{}
+	for _, h := range hosts {
+		after[h] = verifnd.Choose("after."+h, 3)
+		if after[h] == before[h] {
+			continue
+		}
+		w.dcs.unseedPath(dcs.JoinPath(dcs.PathHANodesPrefix, h))
+		w.dcs.unseedPath(dcs.JoinPath(dcs.PathCascadeNodesPrefix, h))
+		switch after[h] {
+		case gHA:
+			w.dcs.seed(dcs.JoinPath(dcs.PathHANodesPrefix, h), struct{}{})
+		case gCascade:
+			w.dcs.seed(dcs.JoinPath(dcs.PathCascadeNodesPrefix, h), mysql.CascadeNodeConfiguration{StreamFrom: "h1"})
+		}
+	}
+	w.dcs.FaultBudget = verifnd.Param("dcs_faults", 0)
+	err := cl.UpdateHostsInfo()
+	if err != nil {
+		verifnd.Reach("C20.registry.refresh-failed")
+		return
+	}
+	nHA, nCasc := 0, 0
+	for _, h := range hosts {
+		verifnd.Assert(cl.IsHAHost(h) == (after[h] == gHA), "registry.ha-group-equals-store")
+		verifnd.Assert(cl.IsCascadeHost(h) == (after[h] == gCascade), "registry.cascade-group-equals-store")
+		verifnd.Assert((cl.Get(h) != nil) == (after[h] != gAbsent), "registry.handle-iff-registered")
+		if after[h] == gHA {
+			nHA++
+		}
+		if after[h] == gCascade {
+			nCasc++
+		}
+	}
+	verifnd.Assert(len(cl.HANodeHosts()) == nHA && len(cl.CascadeNodeHosts()) == nCasc && len(cl.AllNodeHosts()) == nHA+nCasc, "registry.lists-equal-store")
+	verifnd.Assert(cl.Local() != nil && cl.Local().Host() == "h2", "registry.local-handle-kept")
+	verifnd.Reach("C20.registry.refreshed")
+}
+
+// H_C20_registry_refresh_faults: the same with failing reads of the coordination service.
+func H_C20_registry_refresh_faults() { H_C20_registry_refresh() }
